@@ -11,6 +11,11 @@ from .common import (GEOM, DIE, stmt_calls, exit_facts, facts_text, call_name, n
                      mutating_calls_on_attr, assert_conjuncts)
 
 SINKS = {"append", "extend", "appendleft", "heappush", "push", "add"}
+from framelint.canon import canon_function as _canon_function_expanded
+
+def canon_function(fi, model=None, opts=None):   # rules of this file match shapes: look through every local
+    return _canon_function_expanded(fi, model, opts, expand=True)
+
 
 
 def _result_collection(ctx: Ctx, fi) -> S:
